@@ -246,3 +246,24 @@ def write_replay(f: Finding) -> Path:
         + "\n"
     )
     return p
+
+
+# ---------------------------------------------------------------------------------------------------
+# performance only: keep the interpreters' deep recursion inside ONE CPython data-stack chunk
+
+
+def _flat(_f, *_a, **_k):
+    return _f(*_a, **_k)
+
+
+try:  # CPython: a frame of ~540 kB makes the VM allocate a 1 MB data-stack chunk with ~480 kB of room behind this frame
+    _flat.__code__ = _flat.__code__.replace(co_stacksize=68000)
+except Exception:  # pragma: no cover - other implementations: a plain call
+    pass
+
+
+def flat_stack(f, *args, **kwargs):
+    """Call ``f`` so that the deep, hot recursion of the AST interpreters below it never straddles a boundary of CPython's 16 kB
+    frame-stack chunks (a hot call site sitting on such a boundary costs an mmap/munmap pair per call: measured 0.7 s -> 14 s for the
+    same work, depending only on the caller's own stack depth).  Semantics are those of ``f(*args, **kwargs)``."""
+    return _flat(f, *args, **kwargs)
